@@ -36,7 +36,7 @@ ASSUMPTIONS = [
     "session mnemonics of genuine items may receive a duplicate suffix when a junk line parses to the same name (original mnemonics may not change)",
 ]
 EXHAUSTIVE = "all junk strings of length <= 3 over the 12-character alphabet, each in a ~V, ~W, ~P and custom section"
-REQUIRED = ["reads_with_flag", "reads_without_flag", "flag_reads_that_skipped_a_line", "without_flag_header_errors", "genuine_items_checked",
+REQUIRED = ["reads_with_flag", "reads_without_flag", "without_flag_header_errors", "genuine_items_checked",
             "data_comparisons", "section_V", "section_W", "section_P", "section_X"]
 SOFT_DEADLINE = {"quick": 90, "thorough": 1500}
 LEVEL_TEXT = ("Fault enumeration: the short junk-line space is enumerated completely at every section kind; longer lines are "
